@@ -229,6 +229,7 @@ func (g *Gen) Step() bool {
 			choice{g.wt("token"), func() { g.opToken(conns) }},
 			choice{g.wt("burst"), func() { g.opBurst(conns) }},
 			choice{g.wt("badreq"), func() { g.opBadReq(conns) }},
+			choice{g.wt("trigburst"), func() { g.opTrigBurst(conns) }},
 		)
 	}
 	if len(pend) > 0 {
@@ -702,6 +703,40 @@ func (g *Gen) RunPrologue() {
 		g.w.Exec(op)
 		if g.w.Failed != "" || g.w.Deadlock != "" {
 			return
+		}
+	}
+}
+
+// opTrigBurst fires a revocation trigger for a directly subscribed resource and
+// lets events for that resource reach the gateway inside the re-check window.
+func (g *Gen) opTrigBurst(conns []*Client) {
+	c := g.conn(conns)
+	var rids []string
+	for rid, n := range c.Ref.Direct {
+		if n > 0 {
+			rids = append(rids, rid)
+		}
+	}
+	if len(rids) == 0 {
+		return
+	}
+	sort.Strings(rids)
+	rid := g.sample("trid", rids)
+	name, _ := g.w.expandRID(c, rid)
+	switch rapid.IntRange(0, 2).Draw(g.t, "trigkind") {
+	case 0:
+		g.w.Exec(Op{K: "token", C: c.Idx, P: g.sample("token", g.tokens()), S: ""})
+	case 1:
+		g.w.Exec(Op{K: "reaccess", S: name})
+	default:
+		g.w.Exec(Op{K: "sysreset", P: `{"access":[` + jstr(name) + `]}`})
+	}
+	n := rapid.IntRange(1, 3).Draw(g.t, "nev")
+	for i := 0; i < n; i++ {
+		if rapid.IntRange(0, 3).Draw(g.t, "evkind") == 0 && g.w.Svc.def(name) != nil && g.w.Svc.def(name).QueryMap == nil {
+			g.mutate("mut", name, "")
+		} else {
+			g.w.Exec(Op{K: "custom", S: name, M: "custom"})
 		}
 	}
 }
